@@ -116,3 +116,45 @@ pub fn skip_trivia(src: &str) -> Option<usize> {
 pub fn comment(src: &str) -> Option<(String, usize)> {
     crate::lexer::verif_comment(src)
 }
+
+use crate::intermediate::{types::DistinguishedValue, ASN1Value, ObjectIdentifierArc};
+
+pub fn hex_to_bools(c: char) -> [bool; 4] {
+    crate::lexer::verif_hex_to_bools(c)
+}
+
+/// `Ok(bits)` for a bstring / hstring, `Err(names)` for a named-bit list; plus the remaining length
+pub fn bit_string_value(src: &str) -> Option<(Result<Vec<bool>, Vec<String>>, usize)> {
+    crate::lexer::verif_bit_string_value(src).and_then(|(v, rest)| match v {
+        ASN1Value::BitString(b) => Some((Ok(b), rest)),
+        ASN1Value::BitStringNamedBits(n) => Some((Err(n), rest)),
+        _ => None,
+    })
+}
+
+pub fn cstring(src: &str) -> Option<(String, usize)> {
+    crate::lexer::verif_cstring(src)
+}
+
+pub fn octets_to_bits(bytes: &[u8]) -> Vec<bool> {
+    crate::validator::verif_octets_to_bits(bytes)
+}
+
+pub fn bits_to_octets(bits: &[bool]) -> Option<Vec<u8>> {
+    crate::validator::verif_bits_to_octets(bits)
+}
+
+pub fn named_bits(highest: i128, chosen: &[String], distinguished: &[(String, i128)]) -> Vec<bool> {
+    let dist: Vec<DistinguishedValue> = distinguished
+        .iter()
+        .map(|(name, value)| DistinguishedValue {
+            name: name.clone(),
+            value: *value,
+        })
+        .collect();
+    crate::validator::verif_named_bits(highest, chosen, &dist)
+}
+
+pub fn oid_well_known(name: Option<&String>, root: Option<u8>) -> Option<u128> {
+    ObjectIdentifierArc::well_known(name, root)
+}
